@@ -67,14 +67,17 @@ def run(ctx):
             # every single cut position of short streams
             segs += [("cut@%d" % c, [s[:c], s[c:]]) for c in range(1, len(s))][:: (1 if quick and len(s) <= 120 else 3)]
         for name, chunks in segs:
-            obs, rec = lp.run_impl(spec, chunks, progs)
+            # one pair in four goes through the socket interface (SocketUnreader.chunk = recv), the others through IterUnreader
+            via_sock = ctx.rng.random() < 0.25
+            obs, rec = lp.run_impl(spec, chunks, progs, sock=via_sock)
+            ctx.hist("source", "socket" if via_sock else "iterator")
             npairs += 1
             nontrivial = len(chunks) > 1 and 100 in obs
             ctx.count_case((s, tuple(len(c) for c in chunks), repr(progs), repr(sorted(spec.items(), key=str))), nontrivial)
             ctx.hist("segmentation", name.split("@")[0])
             ctx.hist("terminal", terminal_of(obs))
             if obs != whole_obs:
-                oracle_fail.append((spec, s, progs, chunks, obs, whole_obs))
+                oracle_fail.append((spec, s, progs, chunks, obs, whole_obs, via_sock))
             # a sample of the pairs goes to the model (the kernel is slower than the parser)
             if name in ("whole", "random", "lines", "small") or name.startswith("cut") and ctx.rng.random() < 0.08 or (name == "bytes" and len(s) < 400):
                 if len(s) <= 6000:
@@ -89,10 +92,10 @@ def run(ctx):
                        "random cuts, every single cut for short streams, fixed small blocks}; read program per request; "
                        "non-trivial = more than one read and at least one request parsed; distinct by (stream, cut positions, programs, config)")
     ctx.log("%d (stream, segmentation) pairs on the real parser; %d differ from the unsegmented run" % (npairs, len(oracle_fail)))
-    for (spec, s, progs, chunks, obs, whole_obs) in oracle_fail[:3]:
+    for (spec, s, progs, chunks, obs, whole_obs, via_sock) in oracle_fail[:3]:
         ctx.violation("segmentation changes the parse: chunks %r give a different observation than the whole stream" % ([len(c) for c in chunks],),
                       {"kind": "c06", "spec": spec, "stream": s.decode("latin-1"), "chunks": [c.decode("latin-1") for c in chunks],
-                       "progs": progs, "obs_segmented": obs, "obs_whole": whole_obs})
+                       "progs": progs, "obs_segmented": obs, "obs_whole": whole_obs, "via_socket_interface": via_sock})
     # cap the model run
     limit = 2500 if quick else 15000
     if len(cases) > limit:
@@ -121,7 +124,7 @@ def replay(rep):
     chunks = [c.encode("latin-1") for c in rep["chunks"]]
     s = rep["stream"].encode("latin-1")
     progs = [[tuple(c) for c in p] for p in rep["progs"]]
-    a, _ = lp.run_impl(rep["spec"], chunks, progs)
+    a, _ = lp.run_impl(rep["spec"], chunks, progs, sock=rep.get("via_socket_interface", False))
     b, _ = lp.run_impl(rep["spec"], [s[i:i + 8192] for i in range(0, len(s), 8192)], progs)
     print("segmented:", a)
     print("whole    :", b)
